@@ -68,7 +68,10 @@ def describe_val(body, du, op, depth=12):
         # a field / deref read: describe base + projection
         base = {"k": "copy", "p": {"l": p["l"], "proj": []}}
         b = describe_val(body, du, base, depth - 1) if depth > 0 else ("local", body.name_of(p["l"]))
-        return ("proj", b, place_str(body, {"l": 0, "proj": p["proj"]})[2:] if False else _projs(p["proj"]))
+        idx = tuple(describe_val(body, du, {"k": "copy", "p": {"l": e["idx"], "proj": []}}, depth - 1) for e in p["proj"] if isinstance(e, dict) and "idx" in e) if depth > 0 else ()
+        if idx:
+            return ("proj", b, _projs(p["proj"]), idx)
+        return ("proj", b, _projs(p["proj"]))
     l = p["l"]
     if 1 <= l <= body.argc:
         return ("param", l, body.name_of(l))
